@@ -120,11 +120,16 @@ package minersc
 // previous magic block's random seed and its miner pool; too few candidates are rejected.
 //   $reduceCalls   specification-only counter of the selections made through SimpleNodes.reduce
 //@ ghost $reduceCalls Int accumulator
+//   $prevMinerIn[m]   (C38) the miner list m (a map object) was found to hold a miner of the previous set and
+//                     has not been handed to unknown code since (any such call forgets it)
+//@ ghost $prevMinerIn (Int) Bool
 //@ func (*GlobalNode).hasPrevDKGMiner
 //@   trusted
-//@   modifies nothing
+//@   modifies $prevMinerIn
+//@   ensures $prevMinerIn[obj(dkgmns)] == has
+//@   ensures forall m int :: m != obj(dkgmns) ==> $prevMinerIn[m] == old($prevMinerIn[m])
 //@ func (*DKGMinerNodes).reduceNodes
-//@   prop C39
+//@   prop C39, C38
 //@   requires dkgmn != nil && gn != nil && balances != nil
 //@   opaque reduce
 //@   at-call reduce ghost $reduceCalls += 1
@@ -133,6 +138,9 @@ package minersc
 // (a selection that skipped reduce for a list already within the limit in force would be harmless:
 // the clause demands reduce only when there are more candidates than max_n allows)
 //@   ensures[final-selection-over-the-limit-is-reduced] final && err == nil && old(len(dkgmn.SimpleNodes)) > old(gn.MaxN) ==> $reduceCalls == old($reduceCalls) + 1
+// (C38) the list the function leaves behind - after the final selection, the miners of the next magic
+// block - holds a miner of the previous set: checked on that very list, after the selection
+//@   ensures[keeps-a-previous-miner] err == nil ==> $prevMinerIn[obj(dkgmn.SimpleNodes)]
 //@   ensures[too-few-candidates-rejected] err == nil ==> old(len(dkgmn.SimpleNodes)) >= old(dkgmn.MinN)
 //@   modifies everything
 
